@@ -22,6 +22,8 @@ pub const CHARSETS: &[&str] = &[
     "koi8-r", "koi8-u", "macintosh", "windows-1251", "windows-1250", "windows-874", "ibm866", "utf-16", "utf-16le", "utf-16be", "shift_jis", "sjis", "euc-jp",
     "iso-2022-jp", "gbk", "gb2312", "gb18030", "hz-gb-2312", "big5", "big5-hkscs", "euc-kr", "iso-2022-kr", "x-user-defined", "x-mac-cyrillic", "replacement",
     "klingon", "", " utf-8 ", "\"utf-8\"", "utf-8;", "UTF-16LE", "iso-8859-8-i", "windows-949", "unicode", "csunicode", "ucs-2",
+    // degenerate quoting and punctuation
+    "\"", "'", "\"\"", "\"\"\"", "\"x", "x\"", "\"utf-8", "utf-8\"", "'utf-8'", "\" \"", "=", ",", "*", "\\", "%", "%22", "(utf-8)", "utf-8 (comment)", "\"\\\"\"", "\u{e9}",
 ];
 
 #[derive(Clone, Debug, Serialize, Deserialize)]
@@ -222,6 +224,7 @@ pub fn subs() -> Vec<Box<dyn AnySub>> {
             check: check_large,
         }),
         Box::new(EnumSub { name: "fold-uri-limit-sweep", exhaustive: true, list: limit_sweep, check: check_limit }),
+        Box::new(EnumSub { name: "content-type-parameter-sweep", exhaustive: true, list: content_type_sweep, check: check_any }),
         Box::new(Sub { name: "direct", quick: 40_000, thorough: 600_000, strat: direct, check: check_direct }),
         Box::new(EnumSub {
             name: "timestamps",
@@ -256,6 +259,39 @@ pub fn subs() -> Vec<Box<dyn AnySub>> {
         Box::new(EnumSub { name: "secret-capacities-with-trace-logging", exhaustive: true, list: super::c06::cap_list, check: |c, cc| logged(|| check_cap_total(c, cc)) }),
         Box::new(Sub { name: "timestamps-mutated-with-trace-logging", quick: 5_000, thorough: 100_000, strat: super::c16::mutated, check: |t, cc| logged(|| check_ts_total(t, cc)) }),
     ]
+}
+
+/// Every charset label of the list, every single visible ASCII character and every pair of punctuation characters
+/// as the charset value (and as a whole parameter), after each media-type spelling, with the folding option on,
+/// on reference-signed POSTs with an empty, a well-formed and an undecodable body.
+pub fn content_type_sweep(_t: Tier) -> Vec<AnyCase> {
+    let mut values: Vec<String> = CHARSETS.iter().map(|s| s.to_string()).collect();
+    for c in 0x21u8..=0x7e {
+        values.push((c as char).to_string());
+    }
+    const PUNCT: &[u8] = b"\"';=,*\\ %()<>/";
+    for a in PUNCT {
+        for b in PUNCT {
+            values.push(format!("{}{}", *a as char, *b as char));
+        }
+    }
+    let mut out = Vec::new();
+    for v in &values {
+        for ct in ["application/x-www-form-urlencoded; charset=", "application/x-www-form-urlencoded;charset=", "application/x-www-form-urlencoded; ", "application/x-www-form-urlencoded; boundary=x; charset=", "text/plain; charset="] {
+            for body in [&b""[..], &b"a=1&b=%20"[..], &b"a=\xff\xfe"[..]] {
+                let mut plan = simple_plan(Carrier::Header);
+                plan.cfg.fold = true;
+                plan.logical.method = "POST".into();
+                let mut base = plan.base();
+                let Ok(_) = http::header::HeaderValue::from_bytes(format!("{}{}", ct, v).as_bytes()) else { continue };
+                base.headers.push(("Content-Type".into(), B::from(format!("{}{}", ct, v))));
+                base.body = B(body.to_vec());
+                let Ok(signed) = crate::model::sign::sign(&base, &plan.cfg, &plan.spec) else { continue };
+                out.push(AnyCase { case: Case { req: signed.req, cfg: plan.cfg.clone(), prov: plan.provider() } });
+            }
+        }
+    }
+    out
 }
 
 pub fn check_any(ac: &AnyCase, cc: &mut CaseCtx) -> CheckResult {
